@@ -497,6 +497,8 @@ class Gen:
         for layer in range(1, n_layers + 1):
             for j in range(rng.range(1, 2 + (1 if self.has("mutual") else 0))):
                 ar = rng.range(1, 3)
+                if self.has("nullary") and j > 0 and rng.chance(1, 2):
+                    ar = 0          # a nullary relation next to another relation of its layer (so it can sit inside an SCC)
                 types = [rng.choice(col_types if rng.chance(1, 3) else ["number"]) for _ in range(ar)]
                 r = Rel(len(p.rels), "r%d_%d" % (layer, j), types, "idb")
                 r.layer = layer
